@@ -63,8 +63,9 @@ def main(tier='quick'):
     for cls, ctx, m, ln, as_file in cases(tier, rng):
         msg = D.fill(cls(), rng)
         data = bytes(rng.getrandbits(8) for _ in range(ln)) if ln else None
-        tr, cmd, dat, problems = D.send_trace(msg, ctx, m, data, as_file)
-        meta = {'class': cls.__name__, 'ctx': ctx, 'max': m, 'data_len': ln, 'file': as_file}
+        off = rng.choice([0, 0, 1, 5, 132, 4000]) if as_file else 0      # a file is handed over behind its meta header
+        tr, cmd, dat, problems = D.send_trace(msg, ctx, m, data, as_file, offset=off)
+        meta = {'class': cls.__name__, 'ctx': ctx, 'max': m, 'data_len': ln, 'file': as_file, 'file_offset': off}
         if tr is None:
             v.report({'site': 'dimsemessages.encode', 'clause': 'raised', 'max_class': 'small' if m < 64 else 'large'},
                      'Association.send raised for %r: %s' % (meta, problems[0]), replay=meta)
@@ -76,6 +77,39 @@ def main(tier='quick'):
             n_nontrivial += 1
         traces.append(tr)
         metas.append(meta)
+    # the maximum "in force" is the outcome of a negotiation: real requester / acceptor, every pair of a small grid
+    from . import neglib as N, check_c10
+    for own in (0, 7, 128, 16384, 65536):
+        for peer in (0, 7, 1024, 65536):
+            for role in ('requester', 'acceptor'):
+                eff = check_c10.effective(own, peer)
+                try:
+                    if role == 'requester':
+                        ae = N.applicationentity.ClientAE('SCU', supported_ts=[N.TS_UID['T1']], max_pdu_length=own)
+                        ae.add_scu(N.Recorder([N.AS_UID['S2']]))
+                        remote = {'aet': 'SCP', 'address': 'peer', 'port': 104}
+                        reply = N.pdu.AAssociateAcPDU.decode(N.ac_bytes('SCP', 'SCU', [{'id': 1, 'res': 0, 'ts': N.TS_UID['T1']}], peer))
+                        assoc = N.bare_requester(ae, own, remote, [reply])
+                        assoc._request(ae.local_ae, remote, users_pdu=[])
+                    else:
+                        cfg = {'served': [N.AS_UID['S2']], 'supported': [N.TS_UID['T1']]}
+                        rq = {'called': 'SCP', 'calling': 'SCU', 'appctx': N.APP_CTX, 'ctxs': [{'id': 1, 'as': N.AS_UID['S2'], 'ts': [N.TS_UID['T1']]}]}
+                        _, assoc, _, _ = N.run_accept(cfg, rq, own_max=own, peer_max=peer, probe=[])
+                        assoc.dul = D.RecordingDul(own if own else 1 << 20)
+                except Exception as exc:      # noqa - negotiation itself is C09-C11's business
+                    continue
+                for ln in ([0, 1, 3000] if eff == 0 or eff > 4000 else [0, max(eff - 7, 1), 3 * eff]):
+                    msg = D.fill(D.dm.CStoreRQMessage(), rng, uid_len=20)
+                    data = bytes(rng.getrandbits(8) for _ in range(ln)) if ln else None
+                    tr, cmd, dat, problems = D.send_trace(msg, 1, eff, data, bool(ln % 2), assoc=assoc, offset=132 if ln % 2 else 0)
+                    meta = {'class': 'CStoreRQMessage', 'ctx': 1, 'max': eff, 'data_len': ln, 'file': bool(ln % 2), 'negotiated': {'role': role, 'own': own, 'peer': peer}}
+                    if tr is None:
+                        v.report({'site': 'dimsemessages.encode', 'clause': 'raised', 'max_class': 'negotiated'}, 'Association.send raised for %r: %s' % (meta, problems[0]), replay=meta)
+                        continue
+                    for pr in problems:
+                        v.report({'site': 'dimsemessages.encode', 'clause': pr.split(' ')[0] + ' ' + pr.split(' ')[1]}, '%s for %r' % (pr, meta), replay=meta)
+                    traces.append(tr)
+                    metas.append(meta)
     res, stats = tlc.validate_traces('Trace_Dimse', 'Trace_Dimse.cfg', traces, chunk=5000)
     for tr, r, meta in zip(traces, res, metas):
         if r['ok']:
